@@ -81,11 +81,18 @@ def callables(lib, promiscuous):
                     ndef = sum(1 for x in ov["defaults"] if x is not None)
                     out.append(dict(kind="static" if m.get("static") else "method", cls=c, ent=m, ov=ov["ov"], fname=q + "::" + m["name"], params=list(ov["params"]),
                                     ndef=ndef, ret=ov["ret"], const=bool(m.get("const")), name=m["name"]))
-            elif k == "field" and not m["static"] and accessible(m["vis"], promiscuous) and m["t"].kind in ("prim", "enum"):
+            elif k == "field" and not m["static"] and accessible(m["vis"], promiscuous) and m["t"].kind in ("prim", "enum", "str", "cstr"):
                 out.append(dict(kind="get", cls=c, ent=m, ov=0, fname=q + "::get_" + m["name"], params=[], ndef=0, ret=m["t"], name=m["name"]))
-                out.append(dict(kind="set", cls=c, ent=m, ov=0, fname=q + "::set_" + m["name"], params=[m["t"]], ndef=0, ret=hgen.Type("void"), name=m["name"]))
+                if m["t"].kind != "cstr":            # a const char * member would keep pointing into the caller's buffer
+                    out.append(dict(kind="set", cls=c, ent=m, ov=0, fname=q + "::set_" + m["name"], params=[m["t"]], ndef=0, ret=hgen.Type("void"), name=m["name"]))
         if not ctors and not c.get("abstract"):
             out.append(dict(kind="ctor", cls=c, ent=None, ov=0, fname=q + "::" + c["name"], params=[], ndef=0, ret=None, label=None))
+    for g in lib.globals:
+        # global variables are exported through synthesised get_/set_ functions
+        if (g.get("inpub") or promiscuous) and g["t"].kind in ("prim", "enum", "cstr"):
+            out.append(dict(kind="gget", cls=None, ent=g, ov=0, fname="get_" + g["name"], params=[], ndef=0, ret=g["t"], name=g["name"]))
+            if not g["const"] and g["t"].kind != "cstr":
+                out.append(dict(kind="gset", cls=None, ent=g, ov=0, fname="set_" + g["name"], params=[g["t"]], ndef=0, ret=hgen.Type("void"), name=g["name"]))
     for fn in lib.funcs:
         if not (fn.get("inpub") or promiscuous):
             continue
@@ -161,7 +168,7 @@ def find_wrapper(db, idx, call, k, backend, string):
             w = W[wi]
             ps = list(w["parameters"])
             if ps and ps[0]["flags"] & idbfmt.PF["is_this"]:
-                if call["kind"] in ("static", "func", "ctor"):
+                if call["kind"] in ("static", "func", "ctor", "gget", "gset"):
                     continue
                 ps = ps[1:]
             elif call["kind"] in ("method", "get", "set"):
@@ -442,11 +449,15 @@ def judge(case, ctx):
                         expr = "::%s(%s)" % (call["name"], args_cpp)
                     elif call["kind"] == "get":
                         expr = "o%d->%s" % (this["n"], call["name"])
+                    elif call["kind"] == "gget":
+                        expr = "::%s" % call["name"]
+                    elif call["kind"] == "gset":
+                        expr = "(::%s = %s)" % (call["name"], args_cpp)
                     else:
                         expr = "(o%d->%s = %s)" % (this["n"], call["name"], args_cpp)
                     ret = call["ret"]
                     st_["rtype"] = drv_type(dbcat(T, w["return_type"], string) if w["flags"] & idbfmt.WF["has_return"] else ("void",), cls_by_q)
-                    if ret.kind == "void" or call["kind"] == "set":
+                    if ret.kind == "void" or call["kind"] in ("set", "gset"):
                         native.append('  %s; printf("RET %d void\\n");' % (expr, n_step))
                     elif ret.kind == "obj":
                         if ret.mode == 0:
@@ -515,7 +526,11 @@ def judge(case, ctx):
             elif a >= 6:
                 pool = [x for x in avail if x[0]["kind"] in ("method", "get", "set")] or avail
             call, k, w = pool[s[1] % len(pool)]
-            do_call(call, k, w, s, 0)
+            if do_call(call, k, w, s, 0) and (s[9] % 3 == 0 or (call.get("ret") is not None and call["ret"].kind in ("str", "cstr") and s[9] % 3 != 1)):
+                # the same wrapper again with other arguments (and, for methods, possibly another object): each call must
+                # return the value produced by that call
+                do_call(call, k, w, [(x * 7919 + 13) % 1000003 for x in s], 0)
+                kinds.add("repeat")
         if not steps:
             return Outcome(ok=True, classes=classes + ["empty-plan"])
         # --- build both worlds
@@ -553,9 +568,13 @@ def judge(case, ctx):
         rw = run.run([bindgen.PY, drv, "plan.json"], cwd=d, env=run.base_env({"VF_TRACE": wtrace, "PYTHONPATH": d}), timeout=120, mem_mb=0)
         nret = [l for l in rn.out.decode("latin-1").splitlines() if l.startswith("RET ")]
         wret = [l for l in rw.out.decode("latin-1").splitlines() if l.startswith("RET ")]
-        ncalls = [l for l in open(ntrace, encoding="latin-1").read().splitlines() if l.startswith("CALL ")] if os.path.exists(ntrace) else []
+        nall = [l for l in open(ntrace, encoding="latin-1").read().splitlines() if l.startswith("CALL ")] if os.path.exists(ntrace) else []
         wlines = open(wtrace, encoding="latin-1").read().splitlines() if os.path.exists(wtrace) else []
-        wcalls = [l for l in wlines if l.startswith("CALL ")]
+        wall = [l for l in wlines if l.startswith("CALL ")]
+        # destructor calls of temporaries (by-value results, copies) happen at different moments natively and in a wrapper:
+        # they are left out of the ordered comparison; objects the plan destroys explicitly are compared below
+        ncalls = [l for l in nall if not l.endswith("-> dtor")]
+        wcalls = [l for l in wall if not l.endswith("-> dtor")]
         plan_txt = "\n".join(native)
         if rw.signal or rw.timed_out or b"DONE" not in rw.out:
             return Outcome(ok=False, key="wrapped-run-died:%s:%s" % (be, rw.kind()), classes=classes,
@@ -572,6 +591,19 @@ def judge(case, ctx):
                                detail="library call %d: native run logs\n  %s\nwrapped run logs\n  %s\n(options %s %s)\nplan (native form):\n%s" % (i, a, b, be, " ".join(flags), plan_txt))
         if len(ncalls) != len(wcalls):
             return Outcome(ok=False, key="call-count-differs:%s" % be, classes=classes, detail="native run makes %d library calls, wrapped run %d\nplan:\n%s" % (len(ncalls), len(wcalls), plan_txt))
+        for i, st_ in enumerate(steps):
+            if st_.get("kill") is None:
+                continue
+            birth = [j for j, x in enumerate(steps) if x.get("bind") == st_["kill"]]
+            m = re.search(r"o:(\d+)", nret[birth[0]]) if birth and birth[0] < len(nret) else None
+            if not m:
+                continue
+            pat = "this=o:%s " % m.group(1)
+            nd = len([l for l in nall if l.endswith("-> dtor") and pat in l])
+            wd = len([l for l in wall if l.endswith("-> dtor") and pat in l])
+            if nd != wd:
+                return Outcome(ok=False, key="destructor-calls-differ:%s" % be, classes=classes,
+                               detail="the object destroyed in step %d has %d destructor call(s) natively and %d through the %s wrapper %s\nplan:\n%s" % (i, nd, wd, be, st_["w"], plan_txt))
         bad = [l for l in wlines if "DOUBLE-DEATH" in l or "!DEAD" in l]
         if bad and not any("DOUBLE-DEATH" in l or "!DEAD" in l for l in open(ntrace, encoding="latin-1").read().splitlines()):
             return Outcome(ok=False, key="use-after-destroy:%s" % be, classes=classes, detail="wrapped run touches a destroyed object: %s\nplan:\n%s" % (bad[0], plan_txt))
